@@ -186,6 +186,32 @@ impl<'a> Runner<'a> {
             self.exec_step(&mf.join(":"), false);
             return;
         }
+        if st.starts_with("Y:") {
+            if self.panicked {
+                return;
+            }
+            let f: Vec<&str> = st.split(':').collect();
+            if f.len() < 6 {
+                return;
+            }
+            let rstep = format!("r:lookup:{}:{}:{}:{}::", f[2], f[3], f[4], f[5]);
+            let rf: Vec<&str> = rstep.split(':').collect();
+            self.steps.push(st.to_string());
+            self.out.stat("step:Y");
+            if catch_unwind(AssertUnwindSafe(|| self.w.run_pair_lookup(f[1], &rf))).is_err() {
+                self.panicked = true;
+                if !self.overflow_config() {
+                    let p = self.prop.clone();
+                    self.hit(&p, format!("{}:panic:Y", p), format!("step `{}` panicked", st));
+                }
+                return;
+            }
+            self.pair_first = true;
+            self.exec_step(&format!("u:{}", f[1]), false);
+            self.pair_first = false;
+            self.exec_step(&rstep, false);
+            return;
+        }
         self.exec_step(st, true)
     }
 
@@ -1175,6 +1201,21 @@ fn gen_case(r: &mut Prng, prop: &str, n: u64, out: &mut Out) -> (String, String,
             }
         } else {
             match g.r.below(100) {
+                2 if prop != "C19" && run.w.root_live().is_none() && run.w.live.values().any(|l| l.pino != 1 && l.path.starts_with('/') && !l.path.contains(':')) => {
+                    // a client looks the mount path up while the mount is being torn down
+                    let cands: Vec<String> = run.w.live.values().filter(|l| l.pino != 1 && l.path.starts_with('/') && !l.path.contains(':')).map(|l| l.path.clone()).collect();
+                    let up = g.r.pick(&cands).clone();
+                    let comps: Vec<&str> = up.split('/').filter(|c| !c.is_empty() && *c != ".").collect();
+                    if comps.is_empty() || comps.contains(&"..") {
+                        format!("u:{}", up)
+                    } else {
+                        let parent = format!("/{}", comps[..comps.len() - 1].join("/"));
+                        match run.w.vfs.get_root_pseudofs().path_walk(&parent).ok().flatten() {
+                            Some(pp) => format!("Y:{}:{}:{}:{}:{}", up, g.id(), g.id(), pp, hex(comps[comps.len() - 1].as_bytes())),
+                            None => format!("u:{}", up),
+                        }
+                    }
+                }
                 0..=1 if !run.w.live.is_empty() && prop != "C19" => {
                     // a mount racing with the teardown of another mount
                     let lives: Vec<String> = run.w.live.values().map(|l| l.path.clone()).collect();
